@@ -6,9 +6,9 @@ region geometry over Q; grouping and per-block steps of the reader; the whole-fi
 for every file in S's domain, Proofs/C09/File.v).  Ties: tables regenerated from the
 source (harness/gen_c09.py), exhaustive ISO 6937 correspondence (256 single bytes, 15 x 256 diacritic pairs),
 random text fields through ttconv.stl.tf.to_model, byte-level generated files x reader configurations through
-ttconv.stl.reader.to_model (document, active area and the values passed to the progress callback), configuration values
+ttconv.stl.reader.to_model (document, active area and the values passed to the progress callback), configuration dictionaries
 through STLReaderConfiguration.parse; all compared inside Coq with M (Model/StlDatafile.v reader_model, progress_model,
-decode_start_tc, decode_max_row_count) and judged by S (Spec/Ebu3264Spec.v presentation) on the implementation's own output."""
+parse_config = decode_bool, decode_start_tc, decode_max_row_count in field order) and judged by S (Spec/Ebu3264Spec.v presentation) on the implementation's own output."""
 import io, os, re, struct, sys, json, glob, logging
 from fractions import Fraction
 import common as C
@@ -401,7 +401,7 @@ def main():
         return run.finish()
     if changed: run.log("tables regenerated from source:", changed)
     ok, log = run.build(["Proofs/C09/Tables.vo", "Proofs/C09/TextField.vo", "Proofs/C09/Text.vo", "Proofs/C09/Times.vo", "Proofs/C09/Datafile.vo",
-                         "Proofs/C09/File.vo", "Model/StlCases.vo"], clean=(run.tier == "thorough"))
+                         "Proofs/C09/File.vo", "Proofs/C09/Config.vo", "Model/StlCases.vo"], clean=(run.tier == "thorough"))
     proofs_ok = ok and run.theorems()
     if not ok: run.proof_log = log[-2500:]
     run.witnesses()
@@ -504,53 +504,111 @@ def main():
         p = f"{C.GEN}/Cases_C09_file_{k}.v"
         open(p, "w").write(hdr + "Definition cs : list case := [\n" + ";\n".join(l for _, l in sh) + "].\nEval vm_compute in map case_verdict cs.\n")
         files.append(("file", [i for i, _ in sh], p))
-    # ---- 4. stl/config.py decoders through STLReaderConfiguration.parse ------------------------------------------------
+    # ---- 4. STLReaderConfiguration.parse on dictionaries (stl/config.py decoders, ttconv/config.py decode_bool) ----------
     from ttconv.stl.config import STLReaderConfiguration
+    ABSENT = "<absent>"
     def parse_cfg(d):
         try: return ("ok", STLReaderConfiguration.parse(d))
         except ValueError: return ("err", "EValue")
         except Exception as e: return ("other", f"{type(e).__name__}: {e}")
+    # values of the wrong type or shape that every field must reject: booleans, null, numbers, numbers and booleans
+    # written as strings, floats, lists, objects
+    def gen_any(rng):
+        return rng.choice([True, False, None, 0, 1, 23, -1, "23", "1", "0", "true", "false", "True", "null", "", " ", 1.5, 23.0, 0.0,
+                           [], [23], ["TCP"], {"a": 1}, {}])
+    TRAIL = ["", " ", "x", ":00", "\n", "\r", "\u2028", ";", "0", " 10:00:00:00", "\x00"]
     def gen_start(rng):
         k = rng.random()
-        if k < 0.08: return None
-        if k < 0.25: return "".join(rng.choice(p) for p in ("tT", "cC", "pP")) + (rng.choice(["", "", " ", "x"]) if rng.random() < 0.3 else "")
+        if k < 0.06: return None
+        if k < 0.22: return "".join(rng.choice(p) for p in ("tT", "cC", "pP")) + (rng.choice(TRAIL) if rng.random() < 0.3 else "")
+        if k < 0.42: return gen_any(rng)
         d = lambda: rng.choice("0123456789") if rng.random() < 0.93 else rng.choice("aX -:\u0663\uff11")
         sep = lambda: rng.choice(":::::::;.,") if rng.random() < 0.85 else rng.choice(["\n", "x", " ", "", "::", "\r", "\u2028"])
         t = d() + d() + sep() + d() + d() + sep() + d() + d() + sep() + d() + d()
-        if rng.random() < 0.2: t += rng.choice(["", " ", "x", ":00", "\n"])
-        if rng.random() < 0.05: t = rng.choice(["", "TCP ", "tcP", "T\u0441P", "\u0131cp", "10:00:00", "1:2:3:4", "10:00:00:00:00"])
+        if rng.random() < 0.35: t += rng.choice(TRAIL[1:])            # text after the time code (repaired: fullmatch)
+        if rng.random() < 0.04: t = rng.choice([" ", "x", "0"]) + t   # text before it
+        if rng.random() < 0.05: t = rng.choice(["", "TCP ", "tcP", "T\u0441P", "\u0131cp", "10:00:00", "1:2:3:4", "10:00:00:00:00", "10:00:00:0", "100:00:00:00"])
         return t
     def gen_rows(rng):
         k = rng.random()
-        if k < 0.1: return None
-        if k < 0.35: return "".join(rng.choice(p) for p in ("mM", "nN", "rR")) + (rng.choice(["", " ", "x"]) if rng.random() < 0.2 else "")
-        if k < 0.7: return rng.choice([0, 1, 2, 11, 23, 24, 99, -3, 1000, 2 ** 40])
-        if k < 0.8: return rng.choice([True, False])
-        if k < 0.9: return rng.choice(["23", "", "MN", "MNRR", "\u039cNR", "m\u0274r"])
-        return rng.choice([23.0, [23], {"a": 1}, 1.5])
-    n_cfg = 1 if replay is not None else (6000 if thorough else 600)
-    start_rows, rows_rows, cfg_others = [], [], []
-    for _ in range(n_cfg):
-        v = gen_start(rng); r = parse_cfg({} if v is None and rng.random() < 0.5 else {"program_start_tc": v})
-        if r[0] == "other": cfg_others.append((dict(program_start_tc=v), r[1])); continue
-        out = r[1].program_start_tc if r[0] == "ok" else None
-        if r[0] == "ok" and not (out is None or isinstance(out, str)): cfg_others.append((dict(program_start_tc=v), f"decoded to {out!r}")); continue
-        start_rows.append((v, "(inr EValue)" if r[0] == "err" else "(inl " + ("StNone" if out is None else "StTCP" if out == "TCP" else f"(StStr {C.text(out)})") + ")"))
-        v = gen_rows(rng); r = parse_cfg({} if v is None and rng.random() < 0.5 else {"max_row_count": v})
-        if r[0] == "other": cfg_others.append((dict(max_row_count=v), r[1])); continue
-        out = r[1].max_row_count if r[0] == "ok" else None
-        if r[0] == "ok" and not (out is None or out == "MNR" or isinstance(out, int)): cfg_others.append((dict(max_row_count=v), f"decoded to {out!r}")); continue
-        vl = ("None" if v is None else "(Some (VStr " + C.text(v) + "))" if isinstance(v, str) else f"(Some (VBool {C.boolean(v)}))" if isinstance(v, bool)
-              else f"(Some (VInt {C.z(v)}))" if isinstance(v, int) else "(Some VOther)")
-        rows_rows.append((v, vl, "(inr EValue)" if r[0] == "err" else "(inl " + ("MrNone" if out is None else "MrMNR" if isinstance(out, str) else f"(MrInt {C.z(int(out))})") + ")"))
+        if k < 0.08: return None
+        if k < 0.3: return "".join(rng.choice(p) for p in ("mM", "nN", "rR")) + (rng.choice(TRAIL) if rng.random() < 0.25 else "")
+        if k < 0.6: return rng.choice([0, 1, 2, 11, 23, 24, 99, -3, 1000, 2 ** 40])
+        if k < 0.7: return rng.choice([True, False])
+        if k < 0.8: return rng.choice(["23", "23 ", "+23", "", "MN", "MNRR", "\u039cNR", "m\u0274r", "true"])
+        return gen_any(rng)
+    def gen_flag(rng):
+        k = rng.random()
+        if k < 0.45: return rng.choice([True, False])
+        if k < 0.55: return None
+        if k < 0.75: return rng.choice(["true", "false", "true ", "falsex", "True", "FALSE", "no", "yes", "0", "1", ""])
+        if k < 0.85: return rng.choice([0, 1, 2, -1])
+        return gen_any(rng)
+    GENS = dict(disable_fill_line_gap=gen_flag, program_start_tc=gen_start, disable_line_padding=gen_flag, max_row_count=gen_rows)
+    KEYS = list(GENS)
+    def valid_value(rng, k):
+        if k == "program_start_tc": return rng.choice(["TCP", "tcp", "10:00:00:00", "00:00:00:00", "09;59;59;24", None])
+        if k == "max_row_count": return rng.choice(["MNR", "mnr", 23, 11, 0, None])
+        return rng.choice([True, False])
+    def gen_dict(rng):
+        k = rng.random()
+        if k < 0.02: return {}
+        if k < 0.62:                                   # one key (its generator decides)
+            key = rng.choice(KEYS); return {key: GENS[key](rng)}
+        if k < 0.85:                                   # all keys valid but (mostly) one
+            d = {key: valid_value(rng, key) for key in KEYS}
+            if rng.random() < 0.7:
+                key = rng.choice(KEYS); d[key] = GENS[key](rng)
+            return d
+        return {key: GENS[key](rng) for key in KEYS if rng.random() < 0.6}     # any subset, any values
+    def lit_value(d, key):
+        if key not in d: return "None"
+        v = d[key]
+        if v is None: return "(Some VNull)"
+        if isinstance(v, str): return f"(Some (VStr {C.text(v)}))"
+        if isinstance(v, bool): return f"(Some (VBool {C.boolean(v)}))"
+        if isinstance(v, int): return f"(Some (VInt {C.z(v)}))"
+        return "(Some VOther)"
+    def value_class(d, key):
+        if key not in d: return "absent"
+        v = d[key]
+        return ("null" if v is None else "bool" if isinstance(v, bool) else "int" if isinstance(v, int) else "float" if isinstance(v, float) else
+                "str" if isinstance(v, str) else type(v).__name__)
+    def lit_parsed(c):
+        """the configuration parse returned -> Coq literal, or None when a field holds a value of an undocumented type"""
+        st, rw, fg, lp = c.program_start_tc, c.max_row_count, c.disable_fill_line_gap, c.disable_line_padding
+        if not (st is None or isinstance(st, str)) or not (rw is None or rw == "MNR" or (isinstance(rw, int) and not isinstance(rw, bool))): return None
+        if not (fg is True or fg is False) or not (lp is True or lp is False) or c.font_stack is not None: return None
+        return lit_cfg(dict(start=st, rows=rw, nofill=fg, nopad=lp, fonts=None))
+    n_cfg = 1 if replay is not None else (12000 if thorough else 1200)
+    cfg_rows, cfg_others = [], []      # (dict, literal of the outcome)
+    for i in range(n_cfg):
+        d = gen_dict(rng)
+        if replay is not None and replay.get("clause") == "configuration decoders": d = replay["first"]
+        r = parse_cfg(d)
+        if r[0] == "other": cfg_others.append((d, r[1])); continue
+        if r[0] == "ok":
+            o = lit_parsed(r[1])
+            if o is None: cfg_others.append((d, f"decoded to {r[1]!r}")); continue
+            cfg_rows.append((d, f"(inl {o})")); continue
+        cfg_rows.append((d, f"(inr {r[1]})"))
+    # font_stack is outside M (parse_font_families is C19's): only the clause "a value that is not a string is a ValueError, null is no
+    # font stack" is checked, on the code alone, with the other keys absent or valid
+    font_rows = 0
+    for i in range(0 if replay is not None else n_cfg // 6):
+        v = rng.choice([True, False, None, 0, 1, 23, 1.5, [], ["Arial"], [1], {"a": 1}, {}])
+        d = {key: valid_value(rng, key) for key in KEYS if rng.random() < 0.3}; d["font_stack"] = v
+        r = parse_cfg(d); font_rows += 1
+        if r[0] == "other": cfg_others.append((d, r[1]))
+        elif v is None and not (r[0] == "ok" and r[1].font_stack is None): cfg_others.append((d, f"font_stack null: {r[1]!r}"))
+        elif v is not None and r[0] != "err": cfg_others.append((d, f"font_stack {v!r} accepted: {r[1]!r}"))
     pcfg = f"{C.GEN}/Cases_C09_cfg_0.v"
-    open(pcfg, "w").write(hdr + "Definition cs1 : list (option text * (start_tc + error)) := [\n" +
-                          ";\n".join(f"({'None' if v is None else '(Some ' + C.text(v) + ')'}, {o})" for v, o in start_rows) + "].\n" +
-                          "Definition cs2 : list (option cfg_value * (max_rows_cfg + error)) := [\n" + ";\n".join(f"({vl}, {o})" for _, vl, o in rows_rows) + "].\n" +
-                          "Eval vm_compute in map (fun c => if cfg_start_case c then 1 else 0) cs1 ++ map (fun c => if cfg_rows_case c then 1 else 0) cs2.\n")
-    files.append(("cfg", len(start_rows) + len(rows_rows), pcfg))
+    open(pcfg, "w").write(hdr + "Definition cs : list cfg_case := [\n" +
+                          ";\n".join("(" + ", ".join(lit_value(d, k) for k in KEYS) + f", {o})" for d, o in cfg_rows) + "].\n" +
+                          "Eval vm_compute in map (fun c => if cfg_case_ok c then 1 else 0) cs.\n")
+    files.append(("cfg", len(cfg_rows), pcfg))
     run.log(f"{len(iso_rows)} ISO 6937 strings, {len(tf_rows)} text fields, {len(cases)} files ({len(corpus)} corpus files), "
-            f"{len(start_rows) + len(rows_rows)} configuration values in {len(files)} case files")
+            f"{len(cfg_rows)} configuration dictionaries in {len(files)} case files")
     res = C.coqc_many([p for _, _, p in files], 1800)
     logging.disable(logging.NOTSET)
 
@@ -598,7 +656,7 @@ def main():
             f"files: mismatches {len(file_m_bad)}, in S's domain {in_domain}, S ok {spec_ok_n}, "
             f"S failures outside findings {len(file_s_bad)}, covered by findings {sum(len(v) for v in file_known.values())}, "
             f"unexpected exceptions/shapes {len(others)}, broken case files {len(broken)}; "
-            f"configuration values: mismatches {len(cfg_m_bad)}, unexpected {len(cfg_others)}")
+            f"configuration dictionaries: mismatches {len(cfg_m_bad)}, unexpected {len(cfg_others)}")
 
     # ---- recorded findings: must still fire on the code; Findings/C09.v must still compile ----------------------------
     logging.disable(logging.CRITICAL)
@@ -661,8 +719,8 @@ def main():
         if tf_m_bad: what.append(f"Model/StlTf.v vs tf.to_model disagree on {len(tf_m_bad)} text fields, first {tf_rows[tf_m_bad[0]][2].hex()}")
         if file_m_bad: what.append(f"Model/StlDatafile.v vs reader.to_model disagree on {len(file_m_bad)} files, first {cases[file_m_bad[0]][2]}")
         if cfg_m_bad:
-            allc = [("program_start_tc", v) for v, _ in start_rows] + [("max_row_count", v) for v, _, _ in rows_rows]
-            what.append(f"Model/StlDatafile.v decode_start_tc / decode_max_row_count vs stl/config.py disagree on {len(cfg_m_bad)} values, first {allc[cfg_m_bad[0]]!r}")
+            what.append(f"Model/StlDatafile.v parse_config (decode_start_tc, decode_max_row_count, decode_bool) vs STLReaderConfiguration.parse "
+                        f"disagree on {len(cfg_m_bad)} dictionaries, first {cfg_rows[cfg_m_bad[0]][0]!r} -> {cfg_rows[cfg_m_bad[0]][1]}")
         if broken: what.append(f"case files did not evaluate: {broken[0]}")
         run.violation("; ".join(what), dict(kind="broken-tie", theorem_file="coq/Properties/C09.v", proofs_ok=proofs_ok,
                                             correspondence="Model/Iso6937.v, Model/StlTf.v, Model/StlDatafile.v vs ttconv/stl",
@@ -671,7 +729,7 @@ def main():
     distinct = len({json.dumps(r[1], default=str, sort_keys=True) for r in results if r[0] == "ok" and any(r[1]["divs"])})
     hist = lambda f: {str(k): sum(1 for c in cases if f(c) == k) for k in sorted({f(c) for c in cases}, key=str)}
     run.cov.update(
-        evaluations=len(iso_rows) + len(tf_rows) + len(cases) + len(start_rows) + len(rows_rows), distinct_nontrivial=distinct + len({b for _, _, b, _ in tf_rows}),
+        evaluations=len(iso_rows) + len(tf_rows) + len(cases) + len(cfg_rows) + font_rows, distinct_nontrivial=distinct + len({b for _, _, b, _ in tf_rows}),
         exhaustive_tables=True,
         rule="(1) iso6937.decode on all 256 single bytes and all 15x256 diacritic pairs (thorough: all 65 536 pairs), plus random strings; "
              "(2) random text fields (words of the code table incl. diacritic pairs, spaces, all control codes, new-lines single and doubled, "
@@ -682,9 +740,12 @@ def main():
              "of 24 quick / 400 thorough open-subtitle files per run) x configurations through reader.to_model; every output canonicalised to language, "
              "cell resolution, active area, body styles, regions (origin/extent/displayAlign), and per paragraph region, alignment, sizes, "
              "begin/end, runs (colours, italics, underline, text) and line breaks, plus the values passed to the progress callback; "
-             "compared in Coq with M, judged by S; (4) program_start_tc / max_row_count values (TCP/MNR in any case, time codes with any "
-             "separators, non-ASCII digits and letters, ints, bools, other JSON types) through STLReaderConfiguration.parse, compared in Coq "
-             "with the transcribed decoders. distinct_nontrivial = distinct non-empty canonical documents + distinct text fields.",
+             "compared in Coq with M, judged by S; (4) configuration dictionaries over disable_fill_line_gap, program_start_tc, disable_line_padding, "
+             "max_row_count (one key, all keys, any subset; per key: TCP/MNR in any case with and without trailing text, time codes with any "
+             "separators and text after or before them - new-line, U+2028, NUL included -, non-ASCII digits and letters, ints, booleans, "
+             "explicit nulls, numbers and booleans written as strings, floats, lists, objects) through STLReaderConfiguration.parse; the "
+             "configuration or the exception class compared in Coq with Model/StlDatafile.v parse_config; font_stack (outside M) with booleans, numbers, "
+             "lists, objects and null: a ValueError / no font stack, checked on the code alone. distinct_nontrivial = distinct non-empty canonical documents + distinct text fields.",
         replayed=os.environ.get("VERIF_REPLAY"),
         samples=[dict(file=cases[0][2], config=cases[0][1]), dict(tf=tf_rows[0][2].hex(), teletext=tf_rows[0][0], cct=tf_rows[0][1].decode("latin1"))] +
                 ([dict(generated=cases[len(corpus) * 2][2], config=cases[len(corpus) * 2][1])] if len(cases) > len(corpus) * 2 else []),
@@ -697,9 +758,17 @@ def main():
         outcomes={k: sum(1 for r in results if (r[1] if r[0] == "err" else r[0]) == k) for k in ("ok", "EStruct", "EAttribute", "EValue", "EZeroDiv", "other")},
         files_in_spec_domain=in_domain, files_spec_ok=spec_ok_n, files_excused_by_finding={k: len(v) for k, v in file_known.items()},
         model_code_mismatches=dict(iso=len(iso_m_bad), tf=len(tf_m_bad), files=len(file_m_bad), config=len(cfg_m_bad)),
-        config_values=dict(program_start_tc=len(start_rows), max_row_count=len(rows_rows),
-                           start_outcomes={k: sum(1 for _, o in start_rows if k in o) for k in ("StNone", "StTCP", "StStr", "EValue")},
-                           rows_outcomes={k: sum(1 for _, _, o in rows_rows if k in o) for k in ("MrNone", "MrMNR", "MrInt", "EValue")}),
+        config_dictionaries=dict(
+            total=len(cfg_rows), keys_present={str(n): sum(1 for d, _ in cfg_rows if len(d) == n) for n in range(5)},
+            value_classes={k: {c: sum(1 for d, _ in cfg_rows if value_class(d, k) == c) for c in sorted({value_class(d, k) for d, _ in cfg_rows})} for k in KEYS},
+            outcomes={k: sum(1 for _, o in cfg_rows if o.startswith(k)) for k in ("(inl", "(inr EValue")},
+            start_outcomes={k: sum(1 for d, o in cfg_rows if "program_start_tc" in d and k in o) for k in ("StNone", "StTCP", "StStr", "EValue")},
+            start_trailing_text_rejected=sum(1 for d, o in cfg_rows if isinstance(d.get("program_start_tc"), str) and "EValue" in o
+                                             and re.match(r"[0-9]{2}.[0-9]{2}.[0-9]{2}.[0-9]{2}(?s:.)", d["program_start_tc"]) is not None),
+            rows_bool_rejected=sum(1 for d, o in cfg_rows if isinstance(d.get("max_row_count"), bool) and "EValue" in o),
+            flags_non_bool_rejected=sum(1 for d, o in cfg_rows if "EValue" in o and any(k in d and not isinstance(d[k], bool) for k in ("disable_fill_line_gap", "disable_line_padding"))),
+            start_non_string_rejected=sum(1 for d, o in cfg_rows if "EValue" in o and d.get("program_start_tc") is not None and not isinstance(d["program_start_tc"], str)),
+            font_stack_non_string_dictionaries=font_rows),
         progress_values=sum(len(r[2]) for r in results),
         s_failures_on_code=dict(iso=len(iso_s_bad), tf=len(tf_s_bad), files=len(file_s_bad)))
     run.assumptions += ["S (Spec/Ebu3264Spec.v) is my reading of EBU Tech 3264-E (GSI/TTI layout, TF codes, CS/EBN semantics; VP 0 = the top row; a declared row count that is not positive - MNR 00, max_row_count <= 0 - declares no grid: the default 23 rows), ISO 6937 and "
